@@ -150,8 +150,8 @@ def run_trace_validation(prop, tier, seed, scratch, cov, violations, derived_mod
     for dv in derived_modes:
         trace = scratch.path("heap-trace-%d.ndjson" % dv)
         summ = scratch.path("heap-trace-%d.json" % dv)
-        args = ["drive", "-trace", trace, "-seed", str(seed), "-programs", "30" if q else "400", "-steps", "100" if q else "150",
-                "-bigprograms", "6" if q else "40", "-bigsteps", "40" if q else "60", "-nkeys", "4", "-derived", str(dv), "-out", summ]
+        args = ["drive", "-trace", trace, "-seed", str(seed), "-programs", "30" if q else "400", "-steps", "80" if q else "150",
+                "-bigprograms", "4" if q else "40", "-bigsteps", "24" if q else "60", "-nkeys", "4", "-derived", str(dv), "-out", summ]
         rc, so, se, wall = run_vh(vh, args, 1800)
         s = json.load(open(summ))
         mod = "---- MODULE MC ----\nEXTENDS HeapTrace\nmcLits == <<>>\n====\n"
@@ -188,6 +188,7 @@ def run_trace_validation(prop, tier, seed, scratch, cov, violations, derived_mod
                 o = json.loads(bad).get("o")
             except Exception:
                 o = None
+            log("[trace] rejected line: %s" % bad[:400])
             violations.append(dict(property=prop, check="trace", config="trace-derived%d" % dv, sig="trace: op=%s rejected by HeapTrace.tla" % (o[0] if o else "?"),
                                    message="event %d of the recorded execution is not a step Heap.tla allows (operation %s, derived=%d); the program up to and including "
                                            "this event is in %s; TLC: %s" % (first, json.dumps(o), dv, keep, res["tail"][-600:].replace("\n", " ")),
